@@ -16,7 +16,7 @@ func main() {
 	(&consnet.StdCheck{
 		ID: "C02", Level: "model_checking", Focus: []string{"C02"},
 		Build: func(run *core.Run) ([]*consnet.Scenario, string, map[string]interface{}) {
-			var scs []*consnet.Scenario
+			var scs, later []*consnet.Scenario
 			nm := 0
 			type site struct {
 				byz    int
@@ -40,17 +40,72 @@ func main() {
 						}
 						c := base
 						c.Rules = append(append([]consnet.Rule{}, base.Rules...), consnet.Rule{Kind: "hold", Node: j, Msg: "proposal", Height: st.height, Round: 0})
-						scs = append(scs, &c)
+						later = append(later, &c)
 						if !run.Quick() {
 							d := base
 							d.Rules = append(append([]consnet.Rule{}, base.Rules...), consnet.Rule{Kind: "early", Node: j, Step: "propose", Height: st.height, Round: 0})
-							scs = append(scs, &d)
+							later = append(later, &d)
 						}
 					}
 				}
 			}
+			// the same height-2 mutants when block 1 changed the validator set: the embedded last commit must
+			// be judged by the set of height 1, the header by the set of height 2.  The Byzantine validator is
+			// whoever proposes height 2 round 0 under that history, provided it holds < 1/3 of the power.
+			vcs := 0
+			for _, c := range []consnet.Scenario{
+				{Powers: []int64{2, 2, 3, 2}, ValChange: &consnet.ValChange{Height: 1, Index: 2, Power: 1}},
+				{Powers: []int64{2, 3, 2, 2}, ValChange: &consnet.ValChange{Height: 1, Index: 1, Power: 1}},
+				{Powers: []int64{3, 2, 2, 2}, ValChange: &consnet.ValChange{Height: 1, Index: 0, Power: 1}},
+				{Powers: []int64{1, 1, 1, 1}, ValChange: &consnet.ValChange{Height: 1, Index: 3, Power: 10}},
+				{Powers: []int64{2, 2, 2, 1}, ValChange: &consnet.ValChange{Height: 1, Index: 3, Power: 3}},
+				{Powers: []int64{1, 1, 1, 1}, ValChange: &consnet.ValChange{Height: 1, Index: 0, Power: 0}},
+			} {
+				c.Heights = 3
+				b := consnet.ProposerAt(&c, 2, 0)
+				var t1, t2 int64
+				for i, p := range c.Powers {
+					t1 += p
+					if i == c.ValChange.Index {
+						t2 += c.ValChange.Power
+					} else {
+						t2 += p
+					}
+				}
+				p2 := c.Powers[b]
+				if b == c.ValChange.Index {
+					p2 = c.ValChange.Power
+				}
+				if b < 0 || c.Powers[b]*3 >= t1 || p2*3 >= t2 {
+					continue
+				}
+				c.Byz = b
+				vcs++
+				for _, mut := range consnet.BlockMutations(2) {
+					vc := c
+					vc.Rules = []consnet.Rule{{Kind: "byz-mutate", Height: 2, Round: 0, Alt: mut}}
+					scs = append(scs, &vc)
+				}
+			}
+			// one real validator against a fully adversarial environment, round 0 on three power vectors whose totals
+			// cover every residue mod 3: commits reached with exactly-2/3 patterns are audited like all others
+			for _, pw := range [][]int64{{1, 1, 1, 1}, {1, 1, 1, 2}, {1, 1, 2, 2}} {
+				for _, sc := range consnet.SoloRoundScripts(0, false) {
+					commits := false
+					for _, st := range sc {
+						if st.Kind == "precommits" && (st.Arg[0] == 'A' || st.Arg[0] == 'B') {
+							commits = true // only scripts that can end in a commit matter for the audit
+						}
+					}
+					if commits {
+						scs = append(scs, &consnet.Scenario{Powers: pw, Byz: -1, Heights: 1, Mode: "nohash", Solo: &consnet.SoloSpec{Node: 2, Steps: sc}})
+					}
+				}
+			}
+			scs = append(scs, later...)
 			// (a) audit over ordinary adversarial executions as well
-			cfg := []consnet.Scenario{{Powers: []int64{1, 1, 1, 1}, Byz: 0, Heights: 2}}
+			cfg := []consnet.Scenario{{Powers: []int64{1, 1, 1, 1}, Byz: 0, Heights: 2},
+				{Powers: []int64{1, 1, 1, 1}, Byz: 0, Heights: 3, ValChange: &consnet.ValChange{Height: 1, Index: 3, Power: 5}}}
 			menu := func(c consnet.Scenario) []consnet.Rule {
 				return consnet.BuildMenu(consnet.MenuOpts{N: 4, Byz: c.Byz, Rounds: []int64{0, 1}, Heights: []int64{1}, Hold: true, Early: true, ByzBasic: true, ByzSplit: true, SplitAlt: []string{"nil", "alt"}})
 			}
@@ -59,7 +114,7 @@ func main() {
 					"header: chain id, height±1, time, NumTxs±1, LastBlockID hash/parts/zero, LastCommitHash, DataHash, ValidatorsHash (flipped/nil), AppHash (flipped/empty), ReceiptsHash, proposer other/non-validator/empty, Extra; " +
 					"data: tx added/removed, extx added, each raw and with DataHash recomputed; embedded last commit: one/two votes dropped, duplicated entry, foreign height, foreign round, nil-block vote(s), bad signature, wrong index field, truncated, extended, all nil, other block id, votes for another block, prevote type, empty — each raw and with LastCommitHash recomputed) " +
 					"at height 1 round 0 and at height 2 round 0, alone and with one hold/early-timeout rule; plus every execution of the C01 rule menu (depth 1 quick / 2 thorough). Every block any honest node stores is audited from scratch (DESIGN §5 C02 'Audit'); distinct = distinct outcomes",
-				map[string]interface{}{"mutants": nm, "validators": 4}
+				map[string]interface{}{"mutants": nm, "validators": 4, "validator_change_histories": vcs}
 		},
 		Budget: func(run *core.Run) time.Duration {
 			if run.Quick() {
@@ -67,7 +122,7 @@ func main() {
 			}
 			return 12 * time.Minute
 		},
-		Assume: []string{"validator set constant over the explored heights (the audit's reference set = genesis set with accumulators advanced once per block)",
+		Assume: []string{"the audit's reference validator sets are the monitor's own replica: genesis set, the scenario's validator-power change applied where the application applies it, accumulators advanced once per block",
 			"toy application: app hash after block b = H(b), receipts hash empty",
 			"a panic caused by a mutant block is counted under C08, here the case is inconclusive"},
 	}).Main()
